@@ -108,6 +108,19 @@ CHECKS['C15'] = dict(cat='other', engine='symnp',
          'up to 2-d, strict diagonal dominance in 3-d); astropy WCS outside the claim; asymmetric correlation patterns are a '
          'recorded finding')
 
+CHECKS['C05'] = dict(cat='other', engine='symnp',
+    technique='two-state symbolic execution (values before/after as distinct solver variables) of the real mutation API + SMT equivalence with a never-evaluated copy',
+    text='Every selection kind, as the top-level state of a subset and stand-alone, is evaluated (filling all memo caches), then '
+         'the values are replaced by fresh symbolic values through update_components (by id and by Component) or '
+         'update_values_from_data, or region parameters are edited (lo/hi/att setters, move_to, ROI replaced or edited in place, '
+         'mask / pairs setters), or links are added, removed or replaced (set_links, inside and outside delay_link_manager_update); '
+         'z3 proves the next mask, derived value, statistic and histogram equal to that of a never-evaluated copy over the new '
+         'values - any result still depending on the old variables is a counterexample. A variant first performs 260 distinct '
+         'memoised evaluations so that bounded-cache defects surface.', ref='5/C05',
+    note=NOTE_SYM + '; the recorded finding C05/memo-not-invalidated (memoised states other than the top-level state class of a '
+         'subset are never invalidated) is excluded by its witness-class predicate while its demonstration still fails; '
+         'FloodFillSubsetState and viewer-layer caches outside the claim')
+
 NOT_YET = {}
 
 NOT_APPLICABLE = {
